@@ -49,6 +49,8 @@ class Conversions(Contract):
             o['float_is_float'] = isinstance(o['py_float'], float) or P.symbolic
         else:
             o['item1'] = x.astype(float, index=1)
+            it = x[1]          # an element object: built from a template and handed the code, its cached attributes are not refreshed
+            o.update(item_bool=it.__bool__(), item_float=it.__float__(), item_int=it.__int__(), item_raw=it.raw(), item_get=it.get_val())
         return o
 
     def post(self, cfg, inp, obs):
@@ -75,6 +77,9 @@ class Conversions(Contract):
             out['py_bool'] = Iff(B(obs['py_bool']), Not(eq(cs[0], 0)))
         else:
             out['item'] = eq(M(elems(obs['item1'])[0]), scale2(cs[1], -f))
+            v1 = scale2(cs[1], -f)
+            out['item_object'] = And(Iff(B(obs['item_bool']), Not(eq(cs[1], 0))), eq(M(obs['item_float']), v1), eq(M(obs['item_int']), floor(v1)),
+                                     eq(M(elems(obs['item_raw'])[0]), cs[1]), eq(M(elems(obs['item_get'])[0]), floor(v1) if isint else v1))
         return out
 
 
@@ -187,7 +192,7 @@ class FlagHistory(Contract):
         fm = [(True, 3, 1), (False, 2, 0)] if tier == 'quick' else [(True, 3, 1), (False, 2, 0), (True, 8, 4), (False, 8, -1)]
         for (s, n, f) in fm:
             for rule, mode in [('trunc', 'saturate'), ('around', 'wrap')] if tier == 'quick' else MODES:
-                for mid in ('write', 'reset', 'resize_same'):
+                for mid in ('write', 'reset', 'resize_same', 'raising_callback'):
                     yield dict(fmt=[s, n, f], rule=rule, mode=mode, mid=mid)
 
     def inputs(self, cfg, D):
@@ -199,14 +204,28 @@ class FlagHistory(Contract):
         s, n, f = cfg['fmt']
         cb = RecCallback()
         x = P.Fxp(inp['v'][0], s, n, f, rounding=cfg['rule'], overflow=cfg['mode'], callbacks=[cb])
-        if cfg['mid'] == 'write':
+        mark = None
+        if cfg['mid'] == 'raising_callback':
+            # a callback that raises during the second write (the caller handles the exception) must not silence later notifications
+            class Boom:
+                def on_value_change(self, obj): raise RuntimeError('strict callback')
+                def __deepcopy__(self, memo): return self
+            boom = Boom()
+            x.callbacks.append(boom)
+            try:
+                x(inp['v'][1])
+            except RuntimeError:
+                pass
+            x.callbacks.remove(boom)
+            mark = len(cb.log)
+        elif cfg['mid'] == 'write':
             x(inp['v'][1])
         elif cfg['mid'] == 'reset':
             x.reset()
         else:
             x.resize(s, n, f)
         x.set_val(inp['v'][2])
-        return {'status': dict(x.status), 'val': x.val, 'log': sorted(cb.log)}
+        return {'status': dict(x.status), 'val': x.val, 'log': sorted(cb.log), 'tail': sorted(cb.log[mark:]) if mark is not None else None}
 
     def post(self, cfg, inp, obs):
         if obs['exc']:
@@ -219,7 +238,7 @@ class FlagHistory(Contract):
             c = OVF(R, s, n, cfg['mode'])
             return R > hi, R < lo, Not(eq(scale2(c, -f), v))
         w = [conds(v) for v in vs]
-        steps = [0, 2] if cfg['mid'] != 'write' else [0, 1, 2]
+        steps = [0, 2] if cfg['mid'] not in ('write', 'raising_callback') else [0, 1, 2]
         if cfg['mid'] == 'reset':
             steps = [2]
         st = obs['status']
@@ -227,6 +246,10 @@ class FlagHistory(Contract):
         for k, name in enumerate(('overflow', 'underflow', 'inaccuracy')):
             out['history_' + name] = Iff(B(st[name]), Or(*[w[i][k] for i in steps]))
         out['final_code'] = eq(M(elems(obs['val'])[0]), Q(vs[2], s, n, f, cfg['rule'], cfg['mode']))
+        if obs.get('tail') is not None:
+            t = obs['tail']
+            out['callbacks_after_exception'] = And(Iff('overflow' in t, w[2][0]), Iff('underflow' in t, w[2][1]), Iff('inaccuracy' in t, w[2][2]),
+                                                   t.count('value_change') == 1, all(t.count(k) <= 1 for k in ('overflow', 'underflow', 'inaccuracy')))
         return out
 
 
@@ -379,6 +402,7 @@ class ConfigSetters(Contract):
                 yield dict(attr=attr, value=v, valid=True)
             for i, v in enumerate(self.BAD):
                 yield dict(attr=attr, bad_index=i, valid=False)
+        yield dict(attr='template', valid=True, template_case=True)
         for attr in ('op_out', 'op_out_like', 'array_op_out', 'array_op_out_like'):
             for i in range(3):
                 yield dict(attr=attr, bad_index=i, valid=False, fxp_attr=True)
@@ -387,6 +411,16 @@ class ConfigSetters(Contract):
                 yield dict(attr=attr, bad_index=i, valid=False, numeric=True)
 
     def run(self, cfg, P, inp):
+        if cfg.get('template_case'):
+            # a template passed to ONE Config (or Fxp) is copied into that object only: later objects start from the defaults
+            d0 = P.Config()
+            c1 = P.Config(template=P.Config(n_word_max=32, rounding='ceil', max_error=1e-3))
+            c2 = P.Config()
+            x = P.Fxp(0.5, True, 8, 2)
+            return {'took_template': (c1.n_word_max, c1.rounding, c1.max_error) == (32, 'ceil', 1e-3),
+                    'later_defaults': (c2.n_word_max, c2.rounding, c2.max_error, c2.overflow) == (d0.n_word_max, d0.rounding, d0.max_error, d0.overflow)
+                                      and (x.config.n_word_max, x.config.rounding, x.config.max_error) == (d0.n_word_max, d0.rounding, d0.max_error),
+                    'class_clean': type(c2).template is None and P.Fxp.template is None}
         c = P.Config()
         attr = cfg['attr']
         before = getattr(c, attr)
@@ -411,6 +445,8 @@ class ConfigSetters(Contract):
     def post(self, cfg, inp, obs):
         if obs['exc']:
             return {}
+        if cfg.get('template_case'):
+            return {'template_applies_once': obs['took_template'], 'template_not_persistent': obs['later_defaults'] and obs['class_clean']}
         if cfg['valid']:
             return {'accepted': obs['stored'] == cfg['value'] and obs['raised'] is None}
         return {'rejected': obs['raised'] in ('ValueError', 'TypeError'), 'unchanged': bool(obs['same_obj'])}
